@@ -6,7 +6,7 @@ LEVEL = "other"
 EXHAUSTIVE = False
 EXPLANATION = ("Necessary conditions of 'invalid input is never accepted silently': a token is consumed without error only after it "
                "was tested (E1); error-mode consumption is preceded by a report (S8); trailing input after the start rule is reported "
-               "and the input is completed (S2); the choice-mode flag, under which mismatches are answered with a silent None, cannot "
+               "and the input is completed (S2); at the end of the token stream the current token becomes the entry point's own end-of-input token (S7: a `part` entry point otherwise sees the start rule's end token, which is not in its follow set, and a sentence of the part draws a diagnostic); the choice-mode flag, under which mismatches are answered with a silent None, cannot "
                "survive an ordered choice (F1); inside an attempt that can still be undone nothing is reported (F2: a sentence whose first alternative fails late would draw a diagnostic) and the result of a shared rule is never dropped (F5: a failed attempt would continue as if it had matched, accepting invalid input silently). TVAL: for the rule functions of the analysed grammars that are not left-recursive, predicate-free and not used in an ordered choice, the emitted code is validated against the grammar text: same sequence of terminal matches, rule calls and decisions, and every decision uses exactly the first/follow/predict sets recomputed from the text, which by the LL(1) theorem gives the iff for those functions up to the recovery arms. For left-recursive rules, predicates and ordered choice the iff is not decided.")
 
 
@@ -14,6 +14,7 @@ def run(ctx, rep):
     common.s_rules(ctx, rep, [
         lambda i, r, o: skel.s8_report_first(i, r),
         lambda i, r, o: skel.s2_complete(i, r),
+        lambda i, r, o: skel.s7_saturate(i, r),
     ])
     common.g_rules(ctx, rep, ["E1", "F1", "F2", "F5", "F8"], floors={"E1": 300, "F1": 300})
     tval.tval_rule(ctx, rep)
